@@ -4,6 +4,8 @@ import json, os
 ROOT = os.path.dirname(os.path.dirname(os.path.abspath(__file__)))
 
 CLAIMED = {
+    "C14": ("§4 C14", "the real asyncio worker_serve (lifespan, asyncio.start_server, base_events.Server) on a virtual loop: 7 startup x 5 shutdown lifespan scripts x connection attempts before startup finished x in-flight request at the trigger; ordering of lifespan messages vs listening/accept/request scopes, error propagation, per-connection state copies (asyncio worker only; the trio worker_serve cannot be executed under the tracer)"),
+    "C15": ("§4 C15", "the real asyncio worker_serve on a virtual loop with 1..2 connections of 7 kinds at the trigger, trigger by callable or max_requests, lifespan shutdown completing or hanging: bounded return time, immediate close of idle connections, refusal of new connections/streams, full delivery of requests finishing within the grace period, lifespan.shutdown once and late enough (asyncio worker only)"),
     "C16": ("§4 C16", "differential execution: the same client action list (session family x split offset x ending) is run against the real asyncio TCPServer on a virtual loop and the real trio TCPServer under a MockClock; application message sequences, bytes written per step, server close time and handler completion must be identical"),
     "C07": ("§4 C07", "real TCPServer of both workers on virtual time (asyncio loop with a virtual selector, trio with a manually stepped MockClock): idle-timeout histories (phases x gap classes relative to keep_alive_timeout) against a reference timeline, HTTP/2 and WebSocket idleness, peer loss (EOF, reset, write failure) at five points; H2 idle computation one step"),
     "C04": ("§4 C04", "bounded sequences of odd-but-legal HTTP/2 exchanges (18 kinds, raw frames) next to a sibling stream, single-byte mutations at every (quick: strided) position of 5 valid HTTP/1, HTTP/2 and WebSocket transcripts, odd handshake header values on both carriers: no exception escapes the connection handler and stream-level oddities stay on their stream (frame-level observer)"),
